@@ -305,7 +305,7 @@ func sweep(c *Config, kind string, n int, keep func([][]int) bool, takeOrder fun
 }
 
 func main() {
-	full := flag.Bool("full", false, "thorough tier: all 720 hash orders of every 6-commit DAG instead of every sixth")
+	full := flag.Bool("full", false, "thorough tier: all 720 hash orders of every 6-commit DAG instead of every 24th")
 	c := Setup()
 	defer c.Close()
 	if c.Replay != "" {
@@ -334,13 +334,13 @@ func main() {
 		}
 		return r.Intn(maxD + 1)
 	}
-	for i := c.Count(4000, 150000); i > 0; i-- {
+	for i := c.Count(4000, 60000); i > 0; i-- {
 		fnCase(c, "fnwf", dist(), wellFormed(r, false))
 	}
-	for i := c.Count(4000, 150000); i > 0; i-- {
+	for i := c.Count(4000, 60000); i > 0; i-- {
 		fnCase(c, "fndel", dist(), wellFormed(r, true))
 	}
-	for i := c.Count(6000, 200000); i > 0; i-- {
+	for i := c.Count(6000, 80000); i > 0; i-- {
 		d := dist()
 		if r.Intn(8) == 0 {
 			d = -1 - r.Intn(4)
@@ -353,26 +353,26 @@ func main() {
 		sweep(c, fmt.Sprintf("ex%d", n), n, any, all, workers)
 	}
 	if c.Tier == "thorough" { // not in the search tier: the sweep does not scale down
-		off := int(c.Seed % 6)
+		off := int(c.Seed % 24)
 		if off < 0 {
 			off = 0
 		}
-		take := func(k int) bool { return k%6 == off }
+		take := func(k int) bool { return k%24 == off }
 		if *full {
 			take = all
 		}
 		sweep(c, "ex6", 6, func(p [][]int) bool { return pl.Connected(p) }, take, workers)
 	}
-	for i := c.Count(1000, 20000); i > 0; i-- {
+	for i := c.Count(1000, 8000); i > 0; i-- {
 		n := 6 + r.Intn(2)
 		g := pl.FromParents(pl.DagFromMask(n, r.Intn(pl.NumMasks(n))), r.Perm(n))
 		c.Emit(graphFields(fmt.Sprintf("smp%d", n), g, 0, graphObs(g))...)
 	}
-	for i := c.Count(2500, 80000); i > 0; i-- {
+	for i := c.Count(2500, 30000); i > 0; i-- {
 		g := pl.RandomGraph(r, 14)
 		c.Emit(graphFields("rnd", g, 0, graphObs(g))...)
 	}
-	for i := c.Count(150, 5000); i > 0; i-- {
+	for i := c.Count(150, 1500); i > 0; i-- {
 		g := pl.RandomGraph(r, 40)
 		c.Emit(graphFields("rndbig", g, 0, graphObs(g))...)
 	}
